@@ -976,7 +976,8 @@ class ShapedArrayIndexer(Indexer):
         Check that indices are within the bounds of the source shape.
         """
         if self._src_shape is not None and self._arr.size > 0:
-            src_size = shape_to_len(self._dist_shape)
+            # an index array applies to the first dimension of the source only
+            src_size = self._dist_shape[0] if self._dist_shape else shape_to_len(self._dist_shape)
             amax = np.max(self._arr)
             ob = None
             if amax >= src_size or -amax < -src_size:
